@@ -367,6 +367,11 @@ class Report:
         self.assumptions = []
         self._distinct = set()
         self.known = [f for f in load_known().get("findings", []) if f.get("property") == prop_id]
+        rdir = os.path.join(WORK, "replay")
+        if os.path.isdir(rdir):
+            for fn in os.listdir(rdir):
+                if fn.startswith("%s_%s_" % (prop_id, seed)):
+                    os.remove(os.path.join(rdir, fn))
 
     def count(self, key=None, nontrivial=False, n=1):
         self.cov["evaluations"] += n
